@@ -521,4 +521,11 @@ theorem cli_set_channel_free (inst : NameCmp) (base : Lib σ) (docOf : σ → Do
   rw [@cli_set_model σ inst base docOf classify render i1 t s h1 hp,
       @cli_set_model σ inst base docOf classify render i2 t s h2 hp, hn, hv]
 
+/-- Non-vacuity of section 6: an accepted `set a 1` on the empty set in the model (the code's own
+    name comparison), rendered as `x` — the shell shows `x\n`, status 0. -/
+def unitLib : Lib Unit := ⟨fun _ => .ok (), fun _ => false, fun _ => .ok [], fun _ _ _ => .ok [], fun _ _ => .ok []⟩
+example : (@setValue NameCmp.model ['a'] (.one (.atom ['1'])) ({} : Doc)).1 = .ok () := by decide
+example : cli (@editLib Unit NameCmp.model unitLib (fun _ => ({} : Doc)) (fun _ => .one (.atom ['1'])) (fun _ => .ok ['x']))
+    .set { chan := .stdin, raw := .ok [], npath := ['a'], value := ['1'] } = ⟨['x', '\n'], 0, none, false⟩ := by decide
+
 end Nima.C16
